@@ -733,7 +733,19 @@ def runUnpack (std : Stdlib) (c : Json) : R (Json × Option Json × Option Strin
   let co ← getOpts c "copts"
   let uo ← getOpts c "uopts"
   let d ← parseGoData ((optField c "from").getD .null)
-  match newFrom co d with
+  let merges := match optField c "merges" with | some (.arr m) => m.toList | _ => []
+  let applyMerges (cfg0 : Val) : R (Outcome Val) :=
+    merges.foldlM (fun (acc : Outcome Val) m => do
+      match acc with
+      | .ok root =>
+        let mo ← getOpts m "opts"
+        let b ← parseGoData ((optField m "b").getD .null)
+        pure (cfgMerge mo root b)
+      | r => pure r) (.ok cfg0)
+  let created : Outcome Val ← match newFrom co d with
+    | .ok cfg0 => applyMerges cfg0
+    | r => pure r
+  match created with
   | .ok cfg =>
     let r := unpack std uo ty old cfg
     let model := match r with
@@ -747,7 +759,9 @@ def runUnpack (std : Stdlib) (c : Json) : R (Json × Option Json × Option Strin
       | some vj => do
         let vd ← parseGoData vj
         match newFrom co vd with
-        | .ok vcfg => pure (unpack std uo ty old vcfg).isOk
+        | .ok vcfg =>
+          -- with later merges, `validFrom` describes the final configuration
+          pure (unpack std uo ty old vcfg).isOk
         | _ => pure false
     -- several faults: which one is reported depends on the iteration order of Go maps
     let model := if validOk then model else model.mergeObj (Json.mkObj [("multi", .bool true)])
